@@ -139,7 +139,7 @@ fn dj(d: &[(Universal2DBox, Option<f32>)]) -> serde_json::Value {
 
 pub fn run(tier: Tier) -> Report {
     let rep = Report::new("C14", tier);
-    rep.set_rule("every list of n <= 4 (quick) / 5 (thorough) boxes drawn with repetition from an 11-box menu (cluster of shifted boxes, nested, exact duplicate, rotated, disjoint, two corner overlaps, two invalid) x score patterns (all None; every distinct permutation of a prefix of {.9,.5,.5,.1,.7}) x nms threshold {.05,.2,.3,.5,.7} x score threshold {None, below, inside, above}; plus chain / ladder / grid families of k boxes for every k <= 40; plus an exact family: every list of 2 (thorough: 3) boxes from 60 axis-aligned boxes with dyadic corners and sizes x thresholds {1/8,1/4,1/2,3/4}, decided with zero margin (coverage exactly at the threshold must not suppress). Non-trivial = at least two valid boxes.");
+    rep.set_rule("every list of n <= 4 (quick) / 5 (thorough) boxes drawn with repetition from an 11-box menu (cluster of shifted boxes, nested, exact duplicate, rotated, disjoint, two corner overlaps, two invalid) x score patterns (all None; every distinct permutation of a prefix of {.9,.5,.5,.1,.7}) x nms threshold {.05,.2,.3,.5,.7} x score threshold {None, below, inside, above}; plus every list of 2-3 boxes from a 5-box rotated cluster in which at least one box had its polygon generated (gen_vertices) before it was moved / turned in place; plus chain / ladder / grid families of k boxes for every k <= 40; plus an exact family: every list of 2 (thorough: 3) boxes from 60 axis-aligned boxes with dyadic corners and sizes x thresholds {1/8,1/4,1/2,3/4}, decided with zero margin (coverage exactly at the threshold must not suppress). Non-trivial = at least two valid boxes.");
     rep.assume("own coverage computation (engine/src/geom.rs); keep/drop decisions asserted outside a 1e-4 margin around the threshold");
     let m = menu();
     let nmax = tier.pick(4usize, 5usize);
@@ -240,6 +240,71 @@ pub fn run(tier: Tier) -> Report {
             });
         }
         rep.extra("exact_family", json!({"menu":em.len(),"max_list_length":nmax,"lists_with_a_coverage_exactly_at_the_threshold":ties.load(Ordering::Relaxed)}));
+    }
+    // prepared-then-changed boxes: rotated boxes whose polygon was generated (gen_vertices) before they were
+    // moved / turned in place; suppression is judged on the boxes as they are when nms() is called
+    {
+        let rm: Vec<Universal2DBox> = vec![
+            Universal2DBox::new(5.0, 10.0, Some(0.4), 0.5, 22.0),
+            Universal2DBox::new(6.0, 11.0, Some(0.5), 0.5, 20.0),
+            Universal2DBox::new(5.0, 10.0, Some(1.2), 0.4, 24.0),
+            Universal2DBox::new(9.0, 14.0, Some(-0.3), 0.6, 18.0),
+            Universal2DBox::new(5.5, 10.0, Some(0.4 + std::f32::consts::PI / 2.0), 2.0, 10.0),
+        ];
+        let prep = |t: &Universal2DBox, how: usize| -> Universal2DBox {
+            match how {
+                0 => t.clone(),
+                1 => {
+                    let mut b = Universal2DBox::new(t.xc + 40.0, t.yc - 25.0, t.angle, t.aspect, t.height);
+                    b.gen_vertices();
+                    b.xc = t.xc;
+                    b.yc = t.yc;
+                    b
+                }
+                2 => {
+                    let mut b = Universal2DBox::new(t.xc, t.yc, Some(t.angle.unwrap_or(0.0) + 1.3), t.aspect, t.height);
+                    b.gen_vertices();
+                    b.rotate_mut(t.angle.unwrap_or(0.0));
+                    b
+                }
+                _ => {
+                    let mut b = t.clone();
+                    b.gen_vertices();
+                    b
+                }
+            }
+        };
+        let mut lists = 0u64;
+        for n in 2..=3usize {
+            let total = (rm.len() * 4).pow(n as u32);
+            par_for(total, 64, |code| {
+                let mut k = code;
+                let mut spec = vec![];
+                let mut changed = false;
+                for _ in 0..n {
+                    let (bi, how) = (k % rm.len(), (k / rm.len()) % 4);
+                    k /= rm.len() * 4;
+                    changed |= how == 1 || how == 2;
+                    spec.push((bi, how));
+                }
+                if !changed {
+                    return;
+                }
+                for scores in 0..2 {
+                    // (Universal2DBox::clone drops the cached polygon, so every list is prepared anew)
+                    let dets: Vec<(Universal2DBox, Option<f32>)> = spec.iter().enumerate().map(|(i, (bi, how))| (prep(&rm[*bi], *how), if scores == 0 { None } else { Some(0.9 - 0.2 * i as f32) })).collect();
+                    for &nt in &[0.2f32, 0.5] {
+                        evals.fetch_add(1, Ordering::Relaxed);
+                        nontrivial.fetch_add(1, Ordering::Relaxed);
+                        if let Err((key, what)) = judge(&dets, nt, None) {
+                            rep.violation(Violation { key: format!("{key}/prepared-then-changed-box"), what, replay: json!({"family":"prepared-then-changed","detections":dj(&dets),"nms_threshold":nt,"code":code}) });
+                        }
+                    }
+                }
+            });
+            lists += total as u64;
+        }
+        rep.extra("prepared_then_changed_lists", json!(lists));
     }
     // families for every k <= 40
     for k in 1..=40usize {
